@@ -307,7 +307,7 @@ func c18bridge(steps, bound, slice int, late ...bool) *explore.Scenario {
 	return sc
 }
 
-var c18pipeOps = []string{"Wab:1", "Wab:3", "Wba:2", "Wab:0", "Rb:8", "Rb:2", "Ra:8", "CloseA", "CloseB", "Bulk:ab"}
+var c18pipeOps = []string{"Wab:1", "Wab:3", "Wba:2", "Wab:0", "Rb:8", "Rb:2", "Rb:0", "Ra:8", "CloseA", "CloseB", "Bulk:ab"}
 
 func c18dpipe(steps int) *explore.Scenario {
 	sc := &explore.Scenario{Name: fmt.Sprintf("dpipe %d steps", steps), Bound: 0}
@@ -571,7 +571,7 @@ func init() {
 			}
 			return []*explore.Scenario{c18bridge(5, 0, 8), c18bridge(4, 0, 2), c18bridge(3, 0, 0), c18bridge(3, 1, 8), c18bridge(6, 0, 8, true), c18dpipe(6), c18dpipeBlocked(true, 2), c18dpipeBlocked(false, 2)}
 		},
-		Rule: "Bridge: every script of the stated length over {writes of 0/1/3-byte messages in both directions, DropNextNWrites, ReorderNextNWrites (1,2,3; also repeated), Drop, Reorder, Filter (set and cleared), Tick, Process} with parked reader threads (one variant: the reader of one direction starts late, and a Tick without a waiting reader must leave the queue untouched) (slices of 0, 2, 8 bytes), compared per endpoint with a script interpreter; dpipe: every script over {writes both ways incl. empty, reads with short/long slices, Close of either end, filling the 1000-message buffer}; plus: buffer full, one more Write blocked in its own thread, then the writing end is closed / the peer reads one",
+		Rule: "Bridge: every script of the stated length over {writes of 0/1/3-byte messages in both directions, DropNextNWrites, ReorderNextNWrites (1,2,3; also repeated), Drop, Reorder, Filter (set and cleared), Tick, Process} with parked reader threads (one variant: the reader of one direction starts late, and a Tick without a waiting reader must leave the queue untouched) (slices of 0, 2, 8 bytes), compared per endpoint with a script interpreter; dpipe: every script over {writes both ways incl. empty, reads with short/long/zero-length slices (a zero-length read still consumes one message), Close of either end, filling the 1000-message buffer}; plus: buffer full, one more Write blocked in its own thread, then the writing end is closed / the peer reads one",
 		Assumptions: []string{"precedence between a reorder window and a drop window or filter, and Drop with an offset beyond the queue, are not specified by the property: such steps are skipped; a drop window counts calls of Write (a write is delivered iff it is outside the window and passes the filter); ReorderNextNWrites re-armed while a window is partly collected: messages are compared as a multiset for that direction (nothing lost, duplicated or invented; order within the merged window unspecified)",
 			"a one-message reordering delivers that message (reversal of one element)"}})
 }
